@@ -18,7 +18,9 @@
 (*                                                                         *)
 (*  pc          parked at                         code                     *)
 (*  "top"       label waitForHeaders passed       :528-559                 *)
-(*  "loop"      head of the checkpoint loop       :587 (retry sleeps)      *)
+(*  "loop"      head of the checkpoint loop       :587                     *)
+(*  "retry"     the same after a failed round     (retryTimeout sleep)     *)
+(*  "q_cp"      getCheckpts broadcast             :615 -> :1960            *)
 (*  "resolve"   lists fetched, before the cap     :629                     *)
 (*  "r_cfh"     resolveConflict, getcfheaders     :1509 -> :1877           *)
 (*  "r_flt"     resolveConflict, getcfilters      :1532 -> :1635 -> :1916  *)
@@ -26,6 +28,7 @@
 (*  "cp"        before getCheckpointedCFHeaders   :662                     *)
 (*  "cp_wait"   select on headerChan / errChan    :1126                    *)
 (*  "tip"       wait for filter tip # header tip  :693-718                 *)
+(*  "tipz"      the same after a failed fetch     (retryTimeout sleep)     *)
 (*  "u_cfh","u_flt","u_blk"  the same three gates inside                   *)
 (*              getUncheckpointedCFHeaders        :781 / :805              *)
 (*  "dead"      the process panicked                                       *)
@@ -41,6 +44,13 @@
 (*                 block of the cfheaders answers is still on the chain    *)
 (*   FixNoQueryNoBan  resolveConflict gives up, banning nobody, when the   *)
 (*                 getcfheaders request could not even be built            *)
+(*   FixRollbackMemTip  rollBackToHeight lowers the in-memory filter tip   *)
+(*   FixSnapshotCheck   cfHandler starts over when lastHash (or the tip    *)
+(*                 the cached checkpoint lists were fetched for) is no     *)
+(*                 longer on the block header chain: at the head of the    *)
+(*                 checkpoint loop and before getCheckpointedCFHeaders     *)
+(*   FixSelfConsistency resolveConflict bans a peer whose cfheaders do not *)
+(*                 lead from / to the checkpoints the same peer served     *)
 (***************************************************************************)
 EXTENDS Integers, Sequences, FiniteSets, TLC, Json, CFSyncProps
 
@@ -51,12 +61,14 @@ CONSTANTS NP,         \* number of peers
           MaxReorgs,  \* rollbacks per history
           MaxRb,      \* deepest rollback
           RbDepths,   \* rollback depths explored (subset of 1..MaxRb)
-          EnvFree,    \* TRUE: block-handler steps at every gate; FALSE: rollbacks only once the
-                      \* handler has started, new headers only after a rollback or at the tip
+          EnvFree,    \* TRUE: the block handler may run between any two handler steps;
+                      \* FALSE: only while the handler goroutine is blocked (Parked)
+          EnvLean,    \* TRUE: new headers only after a rollback or while the handler waits at the tip
           MaxExt,     \* header batches per history
           MaxExtN,    \* largest header batch
           Scen,       \* set of scenarios [asg, bt, ft, hard]
-          FixCPNoPanic, FixURecheck, FixChainCheck, FixNoQueryNoBan
+          FixCPNoPanic, FixURecheck, FixChainCheck, FixNoQueryNoBan,
+          FixRollbackMemTip, FixSnapshotCheck, FixSelfConsistency
 
 VARIABLES sc,      \* [asg, hard]  behaviour assignment, hard-coded checkpoint height (constant)
           bs,      \* block header store: block ids by height
@@ -158,6 +170,12 @@ LCap == IF cpc = <<>> THEN 0
                  b == lastH \div CPI
              IN  IF a < b THEN a ELSE b
 MinCP == IF SetOf(allp) = {} \/ cpc = <<>> THEN 0 ELSE ((Len(cpc) - 1) \div CPI) * CPI
+
+\* isOnBlockHeaderChain: the tip of chain c is still in the block store.
+OnChain(c) == c # <<>> /\ Len(c) <= Len(bs) /\ bs[Len(c)] = c[Len(c)]
+\* the cached lists were fetched for a chain we have left (loop head)
+StaleLists == FixSnapshotCheck /\ SetOf(allp) # {} /\ ~OnChain(cpc)
+LostTip == FixSnapshotCheck /\ ~OnChain(lastC)
 ListOf(p) == [i \in 1..LCap |-> CkOf(p, cpc, i - 1)]
 
 \* checkCFCheckptSanity (:1989) for the lists of the peers in S against store f.
@@ -203,13 +221,13 @@ Outcome(c, bn, x) ==
                gone == FixChainCheck /\ (c.e + 1 > Len(bs) \/ bs[c.e + 1] # c.qc[c.e + 1])
            IN
            IF gone \/ y > Len(bs) - 1    \* re-org seen / detectBadPeers: FetchHeaderByHeight fails
-           THEN [pc |-> IF c.mode = "r" THEN "loop" ELSE "tip", res |-> "err",
+           THEN [pc |-> IF c.mode = "r" THEN "retry" ELSE "tipz", res |-> "err",
                  c |-> NoCtx, bn |-> bn, good |-> <<>>, w |-> 0]
            ELSE [pc |-> IF c.mode = "r" THEN "r_flt" ELSE "u_flt", res |-> "q_flt",
                  c |-> [c EXCEPT !.i = y, !.tb = bs[y + 1]], bn |-> bn, good |-> <<>>, w |-> 0]
       ELSE IF c.mode = "r"
            THEN LET e == EndR(c, bn) IN
-                [pc |-> IF e.res = "good" THEN "cp" ELSE "loop", res |-> e.res,
+                [pc |-> IF e.res = "good" THEN "cp" ELSE "retry", res |-> e.res,
                  c |-> NoCtx, bn |-> e.bn, good |-> e.good, w |-> 0]
            ELSE [pc |-> "tip", res |-> "w", c |-> c, bn |-> bn, good |-> <<>>, w |-> 1]
 
@@ -219,7 +237,7 @@ Outcome(c, bn, x) ==
 Cont(c, bn, rem) ==
   IF c.mode = "u" /\ FixURecheck
   THEN IF rem = {}
-       THEN [pc |-> "tip", res |-> "err", c |-> NoCtx, bn |-> bn, good |-> <<>>, w |-> 0]
+       THEN [pc |-> "tipz", res |-> "err", c |-> NoCtx, bn |-> bn, good |-> <<>>, w |-> 0]
        ELSE Outcome(c, bn, c.i)
   ELSE Outcome(c, bn, c.i + 1)
 
@@ -233,39 +251,71 @@ Apply(op, o, rs, n, lo, hi) ==
        /\ Fin(Act(op, o.res, rs, 0, 0, n, lo, hi))
   ELSE LET hdS == SetOf(o.c.hd) IN
        IF hdS = {}
-       THEN /\ H("tip", NoCtx, o.bn, <<>>, fs, memF, cpq)
+       THEN /\ H("tipz", NoCtx, o.bn, <<>>, fs, memF, cpq)
             /\ Fin(Act(op, "err", rs, 0, 0, n, lo, hi))
        ELSE \E pk \in Picks(hdS, o.c) :
               LET w == WriteCFOn(fs, PrevOf(pk, o.c.qc, o.c.s), pk, o.c.s, o.c.e, o.c.qc) IN
-              /\ H("tip", NoCtx, o.bn, <<>>, w.fs,
+              /\ H(IF w.ok THEN "tip" ELSE "tipz", NoCtx, o.bn, <<>>, w.fs,
                    IF w.ok THEN <<o.c.e, o.c.qc[o.c.e + 1]>> ELSE memF, cpq)
               /\ Fin(Act(op, IF w.ok THEN "ok" ELSE "err", rs, pk, 0, n, lo, hi))
 
 ----------------------------------------------------------------------------
 \* cfHandler :564 - the handler reads the block tip it will sync to.
+BeginReady == memF[1] + CPI <= memH[1] \/ Synced        \* the wait loop :540
+
+\* The handler goroutine is blocked: in a network wait (a gate), in a retry
+\* sleep, or on the condition variable of a wait loop.  Only then does the
+\* block handler get to run (unless EnvFree).
+Parked == \/ pc \in {"retry", "tipz", "q_cp", "r_cfh", "r_flt", "r_blk", "cp_wait",
+                     "u_cfh", "u_flt", "u_blk"}
+          \/ (pc = "top" /\ ~BeginReady)
+          \/ (pc = "tip" /\ memF[2] = memH[2])
+
 Begin ==
   /\ pc = "top" /\ nh < MaxSteps
-  /\ (memF[1] + CPI <= memH[1] \/ Synced)        \* the wait loop :540
+  /\ BeginReady
   /\ lastH' = Len(bs) - 1 /\ lastC' = bs
   /\ pc' = IF Len(bs) - 1 >= CPI THEN "loop" ELSE "cp"
   /\ good' = <<>> /\ nh' = nh + 1
   /\ UNCHANGED <<sc, bs, fs, ban, memH, memF, allp, cpc, ctx, cpq, nre, nex>>
   /\ Fin(Act("Begin", "ok", <<>>, 0, 0, 0, 0, Len(bs) - 1))
 
-\* :597-627 getCheckpts (one broadcast).
-GetCheckpts(rsS) ==
-  /\ pc = "loop" /\ nh < MaxSteps /\ MinCP < lastH
+\* head of the checkpoint loop: the tip read at the top is gone (re-org).
+LoopRestart ==
+  /\ pc \in {"loop", "retry"} /\ nh < MaxSteps /\ LostTip
+  /\ allp' = Flags({}) /\ cpc' = <<>> /\ pc' = "top" /\ nh' = nh + 1
+  /\ UNCHANGED <<sc, bs, fs, ban, memH, memF, lastH, lastC, good, ctx, cpq, nre, nex>>
+  /\ Fin(Act("LoopRestart", "ok", <<>>, 0, 0, 0, 0, lastH))
+
+\* :597-615 the getcfcheckpt broadcast is sent ...
+GcSend ==
+  /\ pc \in {"loop", "retry"} /\ nh < MaxSteps /\ ~LostTip
+  /\ (StaleLists \/ MinCP < lastH)
+  /\ allp' = IF StaleLists THEN Flags({}) ELSE allp
+  /\ cpc' = IF StaleLists THEN <<>> ELSE cpc
+  /\ pc' = "q_cp" /\ nh' = nh + 1
+  /\ UNCHANGED <<sc, bs, fs, ban, memH, memF, lastH, lastC, good, ctx, cpq, nre, nex>>
+  /\ Fin(Act("GcSend", "q_cp", <<>>, 0, 0, 0, 0, lastH))
+
+\* ... and answered (:1960); the handler then makes sure the tip it asked for is
+\* still on the chain (re-org while waiting for the answers).
+GcRecv(rsS) ==
+  /\ pc = "q_cp" /\ nh < MaxSteps
   /\ rsS \in RSets("cp")
-  /\ allp' = Flags(rsS) /\ cpc' = IF rsS = {} THEN <<>> ELSE lastC
-  /\ pc' = IF rsS = {} THEN "loop" ELSE "resolve"      \* :616 none: sleep, continue
   /\ nh' = nh + 1
   /\ UNCHANGED <<sc, bs, fs, ban, memH, memF, lastH, lastC, good, ctx, cpq, nre, nex>>
-  /\ Fin(Act("GetCheckpts", IF rsS = {} THEN "none" ELSE "ok", SortedSeq(rsS), 0, 0, 0, 0, lastH))
+  /\ IF LostTip
+     THEN /\ allp' = Flags({}) /\ cpc' = <<>> /\ pc' = "top"
+          /\ Fin(Act("GetCheckpts", "restart", SortedSeq(rsS), 0, 0, 0, 0, lastH))
+     ELSE /\ allp' = Flags(rsS) /\ cpc' = IF rsS = {} THEN <<>> ELSE lastC
+          /\ pc' = IF rsS = {} THEN "retry" ELSE "resolve"     \* :616 none: sleep, continue
+          /\ Fin(Act("GetCheckpts", IF rsS = {} THEN "none" ELSE "ok", SortedSeq(rsS), 0, 0, 0, 0, lastH))
 
 \* :629-658 cap, then resolveConflict up to its first gate (same loop
 \* iteration as the fetch, or directly if the cached lists reach lastHeight).
 RStart ==
-  /\ (pc = "resolve" \/ (pc = "loop" /\ MinCP >= lastH)) /\ nh < MaxSteps
+  /\ (pc = "resolve" \/ (pc \in {"loop", "retry"} /\ ~LostTip /\ ~StaleLists /\ MinCP >= lastH))
+  /\ nh < MaxSteps
   /\ LET L   == LCap
          cp0 == IF L = 0 THEN {} ELSE SetOf(allp)
          hb  == {p \in cp0 : sc.hard > 0 /\ sc.hard <= L * CPI
@@ -276,7 +326,7 @@ RStart ==
          bt  == Len(bs) - 1
      IN
      IF cp1 = {}
-     THEN /\ H("loop", NoCtx, bn1, <<>>, fs, memF, cpq)
+     THEN /\ H("retry", NoCtx, bn1, <<>>, fs, memF, cpq)
           /\ Fin(Act("RStart", "err", <<>>, 0, 0, 0, 0, lastH))
      ELSE IF d = -1
      THEN /\ H("cp", NoCtx, bn1, ListOf(CHOOSE p \in cp1 : TRUE), fs, memF, cpq)
@@ -285,7 +335,7 @@ RStart ==
      THEN \* getCFHeadersForAllPeers: stopHeight-height underflows, no query is sent
           LET e == IF FixNoQueryNoBan THEN [res |-> "err", good |-> <<>>, bn |-> bn1]
                    ELSE EndR([NoCtx EXCEPT !.mode = "r", !.cp = Flags(cp1)], bn1) IN
-          /\ H(IF e.res = "good" THEN "cp" ELSE "loop", NoCtx, e.bn, e.good, fs, memF, cpq)
+          /\ H(IF e.res = "good" THEN "cp" ELSE "retry", NoCtx, e.bn, e.good, fs, memF, cpq)
           /\ Fin(Act("RStart", e.res, <<>>, 0, 0, 0, 0, lastH))
      ELSE LET s == d * CPI
               e == IF bt - s >= W THEN s + W - 1 ELSE bt
@@ -295,16 +345,36 @@ RStart ==
                bn1, <<>>, fs, memF, cpq)
           /\ Fin(Act("RStart", "q_cfh", <<>>, 0, 0, 0, s, lastH))
 
+\* cfHeadersMatchCheckpoints: p's cfheaders for s..e on chain qc lead from the
+\* checkpoint below index d to the checkpoint at d, as p itself served them.
+SelfOK(p, d, qc, s, e) ==
+  LET m0   == IF s = 0 THEN 0 ELSE IF PrevOf(p, qc, s) >= 0 THEN MaskOf(PrevOf(p, qc, s)) ELSE 0
+      ms   == ChainMask(m0, p, s, s)
+      hs   == qc[s + 1] * LS + ms
+      prev == IF d = 0 THEN 0 ELSE CkOf(p, cpc, d - 1)
+  IN  /\ hs = prev
+      /\ (d >= LCap \/ e - s + 1 <= CPI
+          \/ qc[s + CPI + 1] * LS + ChainMask(ms, p, s + 1, s + CPI) = CkOf(p, cpc, d))
+
 \* the getcfheaders broadcast of resolveConflict is answered.
 RCfh(rsS) ==
   /\ pc = "r_cfh" /\ nh < MaxSteps
   /\ rsS \in RSets("cfh")
-  /\ LET c0 == [ctx EXCEPT !.hd = Flags(rsS)]
-         prevs == {PrevOf(p, ctx.qc, ctx.s) : p \in rsS}
-     IN  IF Cardinality(prevs) > 1
-         THEN /\ H("loop", NoCtx, ban, <<>>, fs, memF, cpq)
+  /\ LET d   == ctx.s \div CPI
+         chk == rsS \cap SetOf(ctx.cp)
+         inc == IF FixSelfConsistency THEN {p \in chk : ~SelfOK(p, d, ctx.qc, ctx.s, ctx.e)} ELSE {}
+         allInc == chk # {} /\ inc = chk       \* nobody is consistent: chains differ, nobody banned
+         bn1 == BanAdd(ban, inc)
+         hd  == rsS \ inc
+         c0  == [ctx EXCEPT !.hd = Flags(hd), !.cp = Flags(SetOf(ctx.cp) \ inc)]
+         prevs == {PrevOf(p, ctx.qc, ctx.s) : p \in hd}
+     IN  IF allInc
+         THEN /\ H("retry", NoCtx, ban, <<>>, fs, memF, cpq)
               /\ Fin(Act("RCfh", "err", SortedSeq(rsS), 0, 0, 0, ctx.s, ctx.e))
-         ELSE Apply("RCfh", Outcome(c0, ban, ctx.s), SortedSeq(rsS), 0, ctx.s, ctx.e)
+         ELSE IF Cardinality(prevs) > 1
+         THEN /\ H("retry", NoCtx, bn1, <<>>, fs, memF, cpq)
+              /\ Fin(Act("RCfh", "err", SortedSeq(rsS), 0, 0, 0, ctx.s, ctx.e))
+         ELSE Apply("RCfh", Outcome(c0, bn1, ctx.s), SortedSeq(rsS), 0, ctx.s, ctx.e)
 
 \* detectBadPeers after the getcfilters broadcast (:1639-1666).
 Flt(op, rsS) ==
@@ -331,7 +401,7 @@ Blk(op, ok) ==
       bad  == IF bad1 # {} THEN bad1 ELSE {p \in fl : cnt(p) < best}
       fail == ok = 0 \/ (bad1 = {} /\ best < thr)
   IN  IF fail
-      THEN /\ H(IF ctx.mode = "r" THEN "loop" ELSE "tip", NoCtx, ban, <<>>, fs, memF, cpq)
+      THEN /\ H(IF ctx.mode = "r" THEN "retry" ELSE "tipz", NoCtx, ban, <<>>, fs, memF, cpq)
            /\ Fin(Act(op, "err", <<>>, 0, 0, ok, ctx.s, ctx.e))
       ELSE Apply(op, Cont([ctx EXCEPT !.hd = Flags(SetOf(ctx.hd) \ bad),
                                       !.cp = Flags(SetOf(ctx.cp) \ bad)],
@@ -364,7 +434,12 @@ CPStart ==
                    IN  [ci |-> ci, lo |-> ci * CPI + 1, hi |-> nx * CPI, fin |-> 0, st |-> 0]
          order == SortedSeq(cis)
      IN
-     IF si > n
+     IF FixSnapshotCheck /\ n > 0 /\ ~OnChain(lastC)
+     THEN \* the tip the checkpoints were resolved for is gone: start over
+          /\ pc' = "top" /\ allp' = Flags({}) /\ cpc' = <<>> /\ good' = <<>> /\ nh' = nh + 1
+          /\ UNCHANGED <<sc, bs, fs, ban, memH, memF, lastH, lastC, ctx, cpq, nre, nex>>
+          /\ Fin(Act("CPStart", "restart", <<>>, 0, 0, 0, 0, 0))
+     ELSE IF si > n
      THEN \* numCheckpts underflows: make() panics
           /\ H("dead", NoCtx, ban, good, fs, memF, NoQ)
           /\ Fin(Act("CPStart", "panic", <<>>, 0, 0, 0, 0, 0))
@@ -441,14 +516,14 @@ CPEnd ==
 ----------------------------------------------------------------------------
 \* getUncheckpointedCFHeaders (:747) up to its first gate.
 UStart ==
-  /\ pc = "tip" /\ nh < MaxSteps /\ memF[2] # memH[2]
+  /\ pc \in {"tip", "tipz"} /\ nh < MaxSteps /\ memF[2] # memH[2]
   /\ LET f  == Len(fs) - 1
          bt == Len(bs) - 1
          s  == f + 1
          e  == IF bt - s >= W THEN s + W - 1 ELSE bt
      IN
      IF bt < f
-     THEN /\ H("tip", NoCtx, ban, good, fs, memF, cpq)
+     THEN /\ H("tipz", NoCtx, ban, good, fs, memF, cpq)
           /\ Fin(Act("UStart", "err", <<>>, 0, 0, 0, 0, 0))
      ELSE IF bt = f
      THEN /\ H("tip", NoCtx, ban, good, fs, memF, cpq)
@@ -465,7 +540,7 @@ UCfh(rsS) ==
          bn1 == BanAdd(ban, pb)
          hd  == rsS \ pb
      IN  IF hd = {}
-         THEN /\ H("tip", NoCtx, bn1, good, fs, memF, cpq)
+         THEN /\ H("tipz", NoCtx, bn1, good, fs, memF, cpq)
               /\ Fin(Act("UCfh", "err", SortedSeq(rsS), 0, 0, 0, ctx.s, ctx.e))
          ELSE Apply("UCfh", Outcome([ctx EXCEPT !.hd = Flags(hd)], bn1, ctx.s),
                     SortedSeq(rsS), 0, ctx.s, ctx.e)
@@ -476,17 +551,19 @@ Rollback(h) ==
   /\ pc # "dead" /\ nh < MaxSteps /\ nre < MaxReorgs
   /\ h >= 0 /\ h < Len(bs) - 1 /\ Len(bs) - 1 - h <= MaxRb /\ h >= sc.hard
   /\ (Len(bs) - 1 - h) \in RbDepths
-  /\ (EnvFree \/ nh >= 1)
+  /\ (EnvFree \/ Parked)
   /\ bs' = SubSeq(bs, 1, h + 1)
   /\ fs' = IF Len(fs) > h + 1 THEN SubSeq(fs, 1, h + 1) ELSE fs
+  /\ memF' = IF FixRollbackMemTip /\ Len(fs) > h + 1 THEN <<h, bs[h + 1]>> ELSE memF
   /\ nre' = nre + 1
-  /\ UNCHANGED <<sc, ban, memH, memF, pc, lastH, lastC, allp, cpc, good, ctx, cpq, nh, nex>>
+  /\ UNCHANGED <<sc, ban, memH, pc, lastH, lastC, allp, cpc, good, ctx, cpq, nh, nex>>
   /\ Fin(Act("Rollback", "ok", <<>>, 0, 0, h, 0, 0))
 
 Extend(n) ==
   /\ pc # "dead" /\ nh < MaxSteps /\ nex < MaxExt
   /\ n >= 1 /\ n <= MaxExtN /\ Len(bs) - 1 + n <= MaxH
-  /\ (EnvFree \/ nre >= 1 \/ pc = "tip")
+  /\ (EnvFree \/ Parked)
+  /\ (~EnvLean \/ nre >= 1 \/ pc \in {"tip", "tipz"})
   /\ LET bt == Len(bs) - 1 IN
      /\ bs' = bs \o [x \in 1..n |-> nre * 16 + bt + x]
      /\ memH' = <<bt + n, nre * 16 + bt + n>>
@@ -511,7 +588,9 @@ Init ==
 
 Next ==
   \/ Begin
-  \/ \E S \in SUBSET Peers : GetCheckpts(S)
+  \/ LoopRestart
+  \/ GcSend
+  \/ \E S \in SUBSET Peers : GcRecv(S)
   \/ RStart
   \/ \E S \in SUBSET Peers : RCfh(S)
   \/ \E S \in SUBSET Peers : RFlt(S)
@@ -530,7 +609,7 @@ Spec == Init /\ [][Next]_vars
 
 ----------------------------------------------------------------------------
 TypeOK ==
-  /\ pc \in {"top", "loop", "resolve", "r_cfh", "r_flt", "r_blk", "cp", "cp_wait", "tip",
+  /\ pc \in {"top", "loop", "retry", "tipz", "q_cp", "resolve", "r_cfh", "r_flt", "r_blk", "cp", "cp_wait", "tip",
              "u_cfh", "u_flt", "u_blk", "dead"}
   /\ Len(bs) >= 1 /\ Len(bs) <= MaxH + 1
   /\ Len(fs) >= 1
